@@ -39,6 +39,7 @@ type peerCfg struct {
 	expOrder   []string          // the order in which the session must propose (precedence, size, mid)
 	expectFW   []string          // forwarder addresses the session must announce
 	expectResp map[string]string // address -> secure response expected (when a challenge is sent)
+	holdTurns  int               // the peer answers FF in its first k turns although it has messages (they "arrive" later)
 	offsets    map[string]int    // accept the session's proposal for this mid at an offset ("!n" / "An": resume)
 	expectComp map[string][]byte // the compressed form the session proposes, by mid (to judge resumed transfers)
 	rng        *rand.Rand
@@ -50,6 +51,8 @@ type peerResult struct {
 	answers    map[string]byte   // session's answers to the peer's proposals
 	accepted   map[string]bool   // session proposals the peer answered '+'
 	sessionFQ  bool              // the session ended the conversation
+	lastOurFF  bool              // the peer's last turn was an FF
+	ourTurns   int
 	done       bool
 	note       string
 }
@@ -268,6 +271,10 @@ func (p *peer) theirTurn() (bool, bool, bool) {
 			return false, true, true
 		case l == "FQ":
 			p.res.sessionFQ = true
+			if p.res.ourTurns > 0 && !p.res.lastOurFF {
+				// FQ answers an FF: a station may only quit when the other side has said it has nothing (more)
+				p.viol("fq-without-ff", "FQ although the peer's last turn was not FF (the peer still has %d message(s) to propose)", len(p.cfg.outbox))
+			}
 			if len(p.cfg.expOrder) > 0 {
 				p.viol("quit-with-pending", "FQ while %d queued messages were never proposed", len(p.cfg.expOrder))
 			}
@@ -367,11 +374,21 @@ func removeStr(xs []string, x string) []string {
 
 // ourTurn: the peer's turn. Returns quit.
 func (p *peer) ourTurn(sessionSaidFF bool) bool {
+	p.res.ourTurns++
+	p.res.lastOurFF = false
+	if p.cfg.holdTurns > 0 && len(p.cfg.outbox) > 0 && !sessionSaidFF {
+		// nothing to offer YET (a message may reach a mailbox while a session is in progress)
+		p.cfg.holdTurns--
+		p.res.lastOurFF = true
+		p.send("FF\r")
+		return false
+	}
 	if len(p.cfg.outbox) == 0 {
 		if sessionSaidFF || p.cfg.earlyFQ {
 			p.send("FQ\r")
 			return true
 		}
+		p.res.lastOurFF = true
 		p.send("FF\r")
 		return false
 	}
@@ -600,6 +617,9 @@ func init() {
 			cfg.comments = r.Intn(2) == 0
 			cfg.earlyFQ = r.Intn(3) == 0
 			cfg.dupMid = r.Intn(5) == 0
+			if r.Intn(4) == 0 {
+				cfg.holdTurns = 1 + r.Intn(2)
+			}
 			if cfg.master && r.Intn(2) == 0 {
 				cfg.motd = []string{"*** MTD Stats Total connects = 2580 Total messages = 3900", "Hello!"}[:1+r.Intn(2)]
 			}
@@ -632,6 +652,9 @@ func init() {
 			nOut := r.Intn(4)
 			if r.Intn(5) == 0 {
 				nOut = 6 + r.Intn(3)
+			}
+			if i%10 == 9 {
+				nOut = 13 + r.Intn(12) // several blocks; sort.Sort's small-slice path ends at 12 elements
 			}
 			for k := 0; k < nOut; k++ {
 				om := newOutMsg(genMessage(r, sp.mycall, "PEER", c.Budget(1500, 8000)))
